@@ -106,4 +106,13 @@ def stepD (env : Env) (s : DState) (inp : Input) : DState :=
 
 def run (env : Env) (s : DState) (inps : List Input) : DState := inps.foldl (stepD env) s
 
+/-- one iteration when the range fetch may GIVE UP: after `MaxRetryCountBlockHashMismatch` + 1 attempts that all met a
+    header disagreeing with the logs, `getEventsByBlockRangeWithRetry` returns nil and the loop goes on as if the range held
+    no watched logs -/
+def stepG (env : Env) (s : DState) (inp : Input × Bool) : DState :=
+  if inp.2 then stepD { env with chain := fun _ => [] } s inp.1 else stepD env s inp.1
+
+def runG (env : Env) (s : DState) (inps : List (Input × Bool)) : DState := inps.foldl (stepG env) s
+
+
 end Aggkit.Downloader
